@@ -115,13 +115,14 @@ def run_unit(spec):
     elif be == "z3":
         cb += ["--z3"]
     cb += spec.get("flags", [])
+    cb += ["--verbosity", "8"]       # prints "Runtime decision procedure: <s>" (solver time for the evidence)
     rc, out, dt = _run(cb, timeout, wd)
     write(os.path.join(wd, "cbmc.log"), " ".join(cb) + "\n" + out)
     cmds.append(" ".join(cb))
     res["checker_cmd"] = " && ".join(cmds)
     res["wall_s"] = round(time.time() - t0, 2)
-    m = re.search(r"Runtime decision procedure: ([0-9.]+)s", out)
-    res["solver_s"] = sum(float(x) for x in re.findall(r"Runtime decision procedure: ([0-9.]+)s", out)) if m else 0.0
+    res["solver_s"] = round(sum(float(x) for x in re.findall(r"Runtime decision procedure: ([0-9.eE+-]+)s", out)), 3)
+    res["symex_s"] = round(sum(float(x) for x in re.findall(r"Runtime Symex: ([0-9.eE+-]+)s", out)), 3)
     if rc == -9 or "<<TIMEOUT" in out:
         res.update(status="undecided", reason="solver timeout after %ss" % timeout)
         return res
